@@ -8,6 +8,7 @@ import re
 
 from core import Property, Stream, enc, enc_list, enc_bool, enc_opt, dec, run_driver
 import cli
+from se2e import SpdxE2EStream
 
 # --------------------------------------------------------------------------
 # independent pieces: tag-value reader, licence-expression reader, truth tables
@@ -932,7 +933,7 @@ class SmallStream(Stream):
 
 PROPERTY = Property(
     pid="C18",
-    streams=[SmallStream(), CheckerStream(), SimplifyStream2(), TreeStream(), BoundaryStream()],
+    streams=[SmallStream(), CheckerStream(), SimplifyStream2(), TreeStream(), BoundaryStream(), SpdxE2EStream()],
     assumptions=[
         "sha1 and md5 are parameters of the model (the checksum arrives as data, the SPDXID digest as a table computed with hashlib); "
         "uniqueness of SPDXIDs is proved assuming the digest is injective on the finite set {name ++ checksum} of the project",
